@@ -276,6 +276,27 @@ def run(ctx):
                         g.membership(0.25)
                     except Exception:
                         pass
+            # the same Function object used again: own variables changed in place, then another formula loaded into it
+            if "k" in variables:
+                for newk in (3.0, -0.5):
+                    fn.variables["k"] = newk
+                    try:
+                        fn.membership(np.array([0.5, 1.5]))
+                    except Exception:
+                        pass
+                ctx.hit("event:term variables changed between calls")
+            tree2 = F.gen_formula(rnd, rnd.randint(1, 3), variables)
+            text2 = F.to_text(rnd, tree2)
+            mon.expected[text2] = tree2
+            try:
+                fn.formula = text2
+                fn.load()
+                fn.membership(val())
+                fn.evaluate({n: val() for n in variables})
+                ctx.hit("event:formula reloaded into the same term")
+            except Exception:
+                pass
+            mon.expected.pop(text2, None)
             mon.expected.pop(text, None)
             if i % 6 == 0:
                 for what, bad in ill_formed_variants(rnd, tree, " ".join(fl.Function.format_infix(text).split())):
@@ -296,7 +317,7 @@ def run(ctx):
                 ctx.sample("formula", {"text": text, "postfix": fn.root.postfix() if fn.root else None, "variables": variables})
         probe.report(ctx)
         reach.report(ctx)
-    ctx.require("hook:Function.load", "hook:Function.membership", "hook:Function.evaluate", "compare:membership:scalar (generator tree)", "compare:membership:array (generator tree)", "compare:evaluate:scalar (generator tree)", "compare:rpn of the loaded tree's postfix", "ill-formed:missing operand", "ill-formed:wrong arity", "ill-formed:unbalanced parenthesis", "name clash refused")
+    ctx.require("hook:Function.load", "hook:Function.membership", "hook:Function.evaluate", "compare:membership:scalar (generator tree)", "compare:membership:array (generator tree)", "compare:evaluate:scalar (generator tree)", "compare:rpn of the loaded tree's postfix", "ill-formed:missing operand", "ill-formed:wrong arity", "ill-formed:unbalanced parenthesis", "name clash refused", "event:term variables changed between calls", "event:formula reloaded into the same term")
     if ctx.nshards == 1:
         for k in list(F.OPERATORS) + list(F.FUNCTIONS):
             ctx.require(f"element:{k}")
